@@ -25,8 +25,10 @@ contract('message.PayloadNONCE.to_bytes', returns=Bytes, props=E, ensures={'rfc'
 contract('message.PayloadNOTIFY.to_bytes', returns=Bytes, props=E,
          requires=['0 <= self.protocol_id <= 255', 'len(self.spi) <= 255', '0 <= self.notification_type <= 65535'],
          ensures={'rfc': 'result == enc_NOTIFY(self)'})
-contract('message.PayloadID.to_bytes', returns=Bytes, props=E, requires=['0 <= self.id_type <= 255'],
-         ensures={'rfc': 'result == enc_ID(self)'})
+# an ID type that does not fit one octet makes pack() fail (callers with inv_payload never get there)
+contract('message.PayloadID.to_bytes', returns=Bytes, props=E,
+         raises={'struct.error': 'not (0 <= self.id_type <= 255)'},
+         ensures={'rfc': 'result == enc_ID(self)', 'fits': '0 <= self.id_type <= 255'})
 contract('message.PayloadAUTH.to_bytes', returns=Bytes, props=E, requires=['0 <= self.method <= 255'],
          ensures={'rfc': 'result == enc_AUTH(self)'})
 contract('message.TrafficSelector.to_bytes', returns=Bytes, props=E, requires=['inv_TS(self)'],
